@@ -23,7 +23,7 @@ from .. import parserlab as lab
 from .. import factlab as fl
 
 LEVEL = "exploration"
-RULE = ("histories over a pool of 60 scripts (valid with differing requires, invalid, "
+RULE = ("histories over a pool of 63 scripts (valid with differing requires, invalid, "
         "truncated mid-string-list / mid-test-list / mid-block / mid-command, ending in "
         "comments, with name/description hash comments, scripts that name a comparator / "
         "capability / identifier which another script uses in a different role) and 14 factory steps + 1 commands-API step (definitions "
@@ -115,6 +115,11 @@ SCRIPTS = [
     'keep :foobar;',
     # text that has no UTF-8 encoding (a lone surrogate, as read with surrogateescape): handed
     # to parse() as str; whatever happens must not depend on what the Parser did before
+    # a command whose completion callback runs ANOTHER Parser to its end (rv/parserlab.py):
+    # what that other Parser was given must not show in this script's outcome
+    'includex "a"; keep;',
+    'if true { includex "abcdef"; stop; } discard;',
+    'keep;\nincludex "abc";\nfoobar;',
     'redirect "postmaster@example.org";',
     'redirectx "postmaster@example.org" "fyi";',
     'redirectx "a@example.org";',
@@ -141,6 +146,9 @@ FACTORY = [
     ([("notexists", "x")], [("reject", "no")], "allof"),
     # not a filter: every extension registered through the commands API, outside any parse
     ("api", "complete-a-require-by-hand", None),
+    # which script the nested Parser of `includex` gets from now on (harness-side knob)
+    ("api", "nested-parser-input", 1), ("api", "nested-parser-input", 2),
+    ("api", "nested-parser-input", 3), ("api", "nested-parser-input", 6),
 ]
 
 NSCRIPTS = len(SCRIPTS)
@@ -190,6 +198,9 @@ def run_step(step, parsers):
         return ("parse", v, repr(o.exc))
     _, fid = step
     conds, acts, mt = FACTORY[fid]
+    if conds == "api" and acts == "nested-parser-input":
+        lab.NESTED["inner"] = mt
+        return ("api", "nested-parser-input")
     if conds == "api":
         return ("api", lab.complete_require_by_hand())
     fs = fl.FiltersSet("h")
@@ -294,7 +305,7 @@ def describe(step):
         return {"parse-and-keep-parser-then-build-FiltersSet-at-the-end": SCRIPTS[step[1]]}
     c, a, m = FACTORY[step[1]]
     if c == "api":
-        return {"commands-api": a}
+        return {"commands-api": a, "arg": m}
     return {"factory": {"conditions": c, "actions": a, "matchtype": m}}
 
 
